@@ -83,14 +83,43 @@ def impl_inspect(cfg, o, rng):
                 (0, accs[1]) if accs[0] == 0 else accs)     # and of Accessors
 
 
+def switch_registry(old, new):
+    """turn the registry described by `old` into `new` (a changed registration id = unregistered and registered again)"""
+    oldm = {(c, n): (rid, pet) for (c, n, rid, pet) in old}
+    newm = {(c, n): (rid, pet) for (c, n, rid, pet) in new}
+    for key, v in oldm.items():
+        if newm.get(key) != v:
+            optree.unregister_pytree_node(world.CUST[key[0]], namespace=world.ns_reg(key[1]))
+    for key, v in newm.items():
+        if oldm.get(key) != v:
+            kw = {}
+            if world.PET[v[1]] is not None:
+                kw['path_entry_type'] = world.PET[v[1]]
+            optree.register_pytree_node(world.CUST[key[0]], world.cust_flatten,
+                                        world.cust_unflatten_for(world.CUST[key[0]]),
+                                        namespace=world.ns_reg(key[1]), **kw)
+
+
 def impl_pair(cfg1, o1, cfg2, o2, rng, hook=None):
-    # both configurations share the registry and the mode set
+    # both configurations share the mode set; the registry of the second one is in force from the moment the
+    # first tree has been flattened (normally the same registry)
     with World(cfg1) as w1:
+        try:
+            return _impl_pair(w1, cfg1, o1, cfg2, o2, rng, hook)
+        finally:
+            if cfg2[3] != cfg1[3]:
+                switch_registry(cfg2[3], cfg1[3])
+
+
+def _impl_pair(w1, cfg1, o1, cfg2, o2, rng, hook):
+    if True:
         w2 = World(cfg2)
         t1 = realize(o1, rng, {})
         t2 = realize(o2, rng, {})
         kw1, kw2 = w1.kw(), w2.kw()
         f1 = attempt(lambda: optree.tree_flatten(t1, **kw1))
+        if cfg2[3] != cfg1[3]:
+            switch_registry(cfg1[3], cfg2[3])
         f2 = attempt(lambda: optree.tree_flatten(t2, **kw2))
         if f1[0] != 0 or f2[0] != 0:
             return (5,)
